@@ -962,6 +962,62 @@ namespace
         sink.sample(J().str("kind", "periodic").num("period", period).i("steps", steps).i("polls", a1).i("terminate_at", termAt));
     }
 
+    // terminate() arriving WHILE the polling thread is inside the predicate, the predicate then returning false: the forced
+    // version of the interleaving "terminate() between fn_() and the store of its result". Afterwards every evaluation must be
+    // true, forever (the statement's "once terminate() has been requested it reports true forever"), whatever the polling
+    // thread does with the stale result. Decided on logical steps; the waits are bounded (inconclusive if they expire).
+    void casePeriodicTerminateInsidePredicate(Sink &sink, Rng &rng)
+    {
+        std::atomic<int> phase{0};  // 0: idle, 1: polling thread is inside the predicate and waits, 2: terminate() has returned
+        std::atomic<bool> armed{false};
+        std::atomic<long> invocations{0};
+        const bool retTrueBefore = rng.coin(0.3);
+        auto pred = [&]() -> bool {
+            ++invocations;
+            if (armed.load(std::memory_order_acquire) && phase.load(std::memory_order_acquire) == 0)
+            {
+                phase.store(1, std::memory_order_release);
+                auto t0 = Clock::now();
+                while (phase.load(std::memory_order_acquire) != 2 && secs(Clock::now() - t0) < 2.0) std::this_thread::yield();
+                return false;  // computed "before" the request, delivered after it
+            }
+            return false;
+        };
+        (void)retTrueBefore;
+        const double period = rng.logUni(2e-4, 5e-3);
+        bool inconclusive = false;
+        long falseAfter = 0, evalsAfter = 0;
+        {
+            PTC ptc(pred, period);
+            PTC copy(ptc);
+            armed.store(true, std::memory_order_release);
+            auto t0 = Clock::now();
+            while (phase.load(std::memory_order_acquire) != 1 && secs(Clock::now() - t0) < 2.0) std::this_thread::yield();
+            if (phase.load(std::memory_order_acquire) != 1) inconclusive = true;
+            else
+            {
+                (rng.coin() ? ptc : copy).terminate();
+                phase.store(2, std::memory_order_release);
+                // evaluate for a few periods: the polling thread meanwhile returns from the predicate with 'false'
+                auto t1 = Clock::now();
+                const double span = std::max(20 * period, 0.01);
+                while (secs(Clock::now() - t1) < span)
+                {
+                    ++evalsAfter;
+                    if (!ptc.eval()) ++falseAfter;
+                    ++evalsAfter;
+                    if (!copy()) ++falseAfter;
+                }
+            }
+        }
+        sink.count("c18_periodic_terminate_inside_predicate_cases");
+        sink.count("c18_periodic_terminate_inside_predicate_evals", evalsAfter);
+        if (inconclusive) sink.inconclusive("periodic:poller-never-entered-predicate");
+        else if (falseAfter)
+            sink.viol("C18:terminate-not-sticky:periodic", J().str("what", "evaluation false after terminate() returned; terminate() arrived while the polling thread was inside the predicate, which then returned false").i("false_evaluations", falseAfter).i("evaluations", evalsAfter).num("period", period));
+        sink.noteCase(hmix(0x7e51, (uint64_t)(period * 1e9)), !inconclusive);
+    }
+
     void runCase(Sink &sink, const Args &a, long c, Heartbeat &hb)
     {
         Rng rng(caseSeed(a, c));
@@ -994,7 +1050,8 @@ namespace
                 caseCostConvergence(sink, rng);
                 break;
             case K_PERIODIC:
-                casePeriodic(sink, rng, hb);
+                if (rng.ui(4) == 0) casePeriodicTerminateInsidePredicate(sink, rng);
+                else casePeriodic(sink, rng, hb);
                 break;
             default:
                 break;
